@@ -45,3 +45,50 @@ REG.fn(M, "kruskal", prop="C13", ret="Result[opt[" + E + "]]", types={"mst_edges
            "implies(result.status == 2, allow_forest and len(val(result.solution)) < n_nodes - 1 and len(val(result.solution)) + uf._count == n_nodes)",
        ],
        loops={1: LoopSpec(invariants=INV)})
+
+# ------------------------------------------------------------------ prim: grows one tree from start
+PG = "dict[U<Node>,list[tuple[U<Node>,real]]]"
+PE = "list[tuple[U<Node>,U<Node>,real]]"
+REG.recfn("wsumN", [("L", PE), ("k", "int")], "real", on="k", base="0.0", step="wsumN(L, k - 1) + L[k - 1][2]", group="wsumN")
+REG.lemma("wsumN_frame", ["L", "L2", "k"],
+          "implies(forall(i, implies(0 <= i < k, L[i] == L2[i])), wsumN(L, k) == wsumN(L2, k))",
+          kind="induction", on="k", group="wsumN", var_sorts={"L": PE, "L2": PE}, trig=["wsumN(L, k)", "wsumN(L2, k)"])
+OFFERED = "has(graph, {a}) and exists(i, 0 <= i < len(get(graph, {a})) and get(graph, {a})[i][0] == {b} and get(graph, {a})[i][1] == {w})"
+PI = [
+    "not is_none(start)", "has(in_mst, val(start))", "pos[val(start)] == 0",
+    "card(in_mst) == len(mst_edges) + 1",
+    "total_weight == wsumN(mst_edges, len(mst_edges))",
+    # ghost order of insertion: the k-th accepted edge attaches a NEW node (position k+1) to an OLD one (position <= k)
+    "forall(x, implies(has(in_mst, x), 0 <= pos[x] <= len(mst_edges)), sorts={'x': 'U<Node>'}, trig=has(in_mst, x))",
+    "forall(x, y, implies(has(in_mst, x) and has(in_mst, y) and pos[x] == pos[y], x == y), sorts={'x': 'U<Node>', 'y': 'U<Node>'}, trig=((has(in_mst, x), has(in_mst, y)),))",
+    "forall(k, implies(0 <= k < len(mst_edges), has(in_mst, mst_edges[k][0]) and has(in_mst, mst_edges[k][1]) and pos[mst_edges[k][1]] == k + 1 and pos[mst_edges[k][0]] <= k), trig=mst_edges[k])",
+    # every accepted edge is an edge of the input graph
+    "forall(k, implies(0 <= k < len(mst_edges), " + OFFERED.format(a="mst_edges[k][0]", b="mst_edges[k][1]", w="mst_edges[k][2]") + "), trig=mst_edges[k])",
+    # heap entries are offered edges leaving the tree
+    "forall(j, implies(0 <= j < len(heap), has(in_mst, heap[j][2]) and " + OFFERED.format(a="heap[j][2]", b="heap[j][3]", w="heap[j][0]") + "), trig=heap[j])",
+    "forall(x, implies(has(in_mst, x), has(nodes, x)), sorts={'x': 'U<Node>'}, trig=has(in_mst, x))",
+]
+REG.fn(M, "prim", prop="C13", ret="Result[opt[" + PE + "]]", lemmas=["wsumN"],
+       types={"graph": PG, "start": "opt[U<Node>]", "nodes": "set[U<Node>]", "in_mst": "set[U<Node>]", "mst_edges": PE,
+              "heap": "list[tuple[real,int,U<Node>,U<Node>]]", "pos": "map[U<Node>,int]", "total_weight": "real"},
+       requires=["implies(not is_none(start), has(graph, val(start)))"],
+       ghost_before=[("in_mst: set[Node] = {start}", "pos", "lam(x, 0, sort='U<Node>')")],
+       ghost_after=[("in_mst.add(v)", "pos", "store(pos, v, len(mst_edges) + 1)")],
+       ensures=[
+           "result.status == 1 or result.status == 3",
+           "implies(result.status == 3, is_none(result.solution))",
+           "implies(result.status == 1, not is_none(result.solution))",
+           "implies(defined('in_mst') and result.status == 3, card(in_mst) < card(nodes))",
+           # a returned tree: one edge per node other than the start, every node of the graph reached
+           "implies(defined('in_mst') and result.status == 1, len(val(result.solution)) + 1 == card(in_mst) and card(in_mst) >= card(nodes))",
+           "implies(defined('in_mst') and result.status == 1, result.objective == wsumN(val(result.solution), len(val(result.solution))))",
+           "implies(defined('in_mst') and result.status == 1, forall(k, implies(0 <= k < len(val(result.solution)), " + OFFERED.format(a="val(result.solution)[k][0]", b="val(result.solution)[k][1]", w="val(result.solution)[k][2]") + "), trig=val(result.solution)[k]))",
+           # acyclic and connected: edge k joins a node first seen at step k+1 to a node seen earlier (ghost positions)
+           "implies(defined('in_mst') and result.status == 1, forall(k, implies(0 <= k < len(val(result.solution)), pos[val(result.solution)[k][1]] == k + 1 and 0 <= pos[val(result.solution)[k][0]] <= k), trig=val(result.solution)[k]))",
+       ],
+       loops={1: LoopSpec(done="dn", invariants=["forall(x, implies(has(graph, x), has(nodes, x)), sorts={'x': 'U<Node>'}, trig=has(graph, x))", "forall(a, i, implies(dn[a] and 0 <= i < len(get(graph, a)), has(nodes, get(graph, a)[i][0])), sorts={'a': 'U<Node>'}, trig=((dn[a], get(graph, a)[i]),))"]),
+              2: LoopSpec(index="q2", invariants=["forall(x, implies(has(graph, x), has(nodes, x)), sorts={'x': 'U<Node>'}, trig=has(graph, x))", "forall(a, i, implies(dn[a] and 0 <= i < len(get(graph, a)), has(nodes, get(graph, a)[i][0])), sorts={'a': 'U<Node>'}, trig=((dn[a], get(graph, a)[i]),))",
+                                                  "forall(i, implies(0 <= i < q2, has(nodes, neighbors[i][0])), trig=neighbors[i])"]),
+              3: LoopSpec(invariants=PI + ["len(mst_edges) == 0"]),
+              4: LoopSpec(invariants=PI),
+              5: LoopSpec(invariants=PI + ["has(in_mst, v)", "len(mst_edges) >= 1"])})
